@@ -13,6 +13,7 @@ CANARIES = [
      'old': "            except Exception:\n                ret = default_render_error(**error_params)",
      'new': "            except NameError:\n                ret = default_render_error(**error_params)"},
 ]
+OWN = [r'dispatch/ensures\[0\]', r'dispatch/raises', r'dispatch/loop.*/(init|preserve)\[[017]\]', r'dispatch/loop.*/post\[[08]\]']
 QUICK_CANARIES = 2
 
 
